@@ -597,9 +597,9 @@ impl<T: TypeConfig> RaftRoleState for LeaderState<T> {
         new_match_id: u64,
     ) -> Result<()> {
         // Pipeline responses can arrive out of order; only advance, never retreat.
-        let current = self.match_index.get(&node_id).copied().unwrap_or(0);
-        if new_match_id > current {
-            self.match_index.insert(node_id, new_match_id);
+        let current = self.match_index.entry(node_id).or_insert(0);
+        if new_match_id > *current {
+            *current = new_match_id;
         }
         Ok(())
     }
